@@ -23,8 +23,8 @@ ASSUMPTIONS = ['coarse assets use wacc = 0 and no holding cost (EAO discounts / 
                'periodic assets use constant capacities (EAO averages bounds over merged steps) and grids with equal steps (EAO rejects unequal periods)',
                'period positions and durations are counted from the grid start; Timedelta-like period strings only',
                'value tolerance 1e-5 relative']
-MIN_NONVACUOUS = {'quick': {'coarse.constant_rate': 40, 'coarse.value_equals_fine_plus_equalities': 40, 'periodic.repeats': 30,
-                            'periodic.value_equals_fine_plus_equalities': 30, 'option.setup_works': 120},
+MIN_NONVACUOUS = {'quick': {'coarse.constant_rate': 25, 'coarse.value_equals_fine_plus_equalities': 25, 'periodic.repeats': 20,
+                            'periodic.value_equals_fine_plus_equalities': 20, 'option.setup_works': 100},
                   'thorough': {'coarse.constant_rate': 600, 'coarse.value_equals_fine_plus_equalities': 600, 'periodic.repeats': 450,
                                'periodic.value_equals_fine_plus_equalities': 450}}
 SUBJECTS = ['SimpleContract', 'Contract', 'Contract', 'Transport', 'ExtendedTransport', 'Storage', 'Storage', 'MultiCommodityContract']
